@@ -1,6 +1,7 @@
 #!/bin/bash
 # Supplementary ThreadSanitizer pass over the OS-thread substrate (S5: real Router::spawn() thread + client threads sharing
-# the link buffers) and the sharded S4 drivers. It decides no property (DESIGN 2.8 / D.27): the behavioural oracles of the
+# the link buffers), the sharded S4 drivers and the full-stack substrate (S6: router thread + connection tasks on a
+# multi-thread runtime). It decides no property (DESIGN 2.8 / D.27): the behavioural oracles of the
 # checks run as usual, ThreadSanitizer additionally watches every memory access of the instrumented build (std included,
 # -Zbuild-std) for data races. Not a MANIFEST command: the instrumented build takes 5-25 minutes.
 #   usage: tools/tsan_pass.sh [rounds-per-check]      result: /verif/notes/tsan_pass.txt
@@ -13,9 +14,16 @@ RUSTFLAGS="-Zsanitizer=thread" CARGO_TARGET_DIR=$T cargo +nightly build --releas
   || { echo "INCONCLUSIVE: instrumented build failed (see $T-build.log)"; exit 2; }
 BIN=$T/x86_64-unknown-linux-gnu/release/vh
 OUT=/verif/notes/tsan_pass.txt
+# the instrumented build must be able to see a race at all: a deliberate one in the harness binary
+rm -f $T/report_selftest.*
+VERIF_TSAN_SELFTEST=1 TSAN_OPTIONS="halt_on_error=0 log_path=$T/report_selftest exitcode=0" $BIN C01 >/dev/null 2>&1
+SELF=$(cat $T/report_selftest.* 2>/dev/null | grep -c "WARNING: ThreadSanitizer: data race")
+if [ "$SELF" -lt 1 ]; then echo "INCONCLUSIVE: the instrumented build does not report a deliberate data race"; exit 2; fi
 {
+echo "self-test: a deliberate unsynchronised write from two threads is reported by this build ($SELF report(s))"
 echo "ThreadSanitizer pass $(date -u +%Y-%m-%dT%H:%MZ), repo $(git -C /repo rev-parse --short HEAD), harness $(git -C /verif rev-parse --short HEAD), $ROUNDS S5 rounds per check"
-for P in C01 C06 C14 C17; do
+# S5 (OS threads) checks, then the S6 (full stack: router thread + multi-thread tokio runtime) checks
+for P in C01 C06 C14 C17 C09 C16 C19 C20; do
   rm -f $T/report_$P.*
   LINE=$(TSAN_OPTIONS="halt_on_error=0 log_path=$T/report_$P exitcode=0" VERIF_S5_ROUNDS=$ROUNDS timeout 3600 $BIN $P --seed ${VERIF_SEED:-1} --evidence $T/evidence_$P.json 2>&1 | grep -E "^$P:|VIOLATION|INCONCL" | tr '\n' ' ')
   N=$(cat $T/report_$P.* 2>/dev/null | grep -c "WARNING: ThreadSanitizer")
